@@ -538,7 +538,16 @@ where
                     return Ok(());
                 }
             }
-            Err(StoreError::NotFound) => {}
+            Err(StoreError::NotFound) => {
+                // The header that bounds the batch from above is synced but not stored
+                // anymore, i.e. it was pruned. Pruner removes an edge of the synced ranges
+                // only after it left the sampling window, so the batch below it is outside
+                // of the sampling window too. Requesting it would also be pointless: it
+                // can not be inserted without its neighbour.
+                if synced_ranges.contains(next_batch.end() + 1) {
+                    return Ok(());
+                }
+            }
             Err(e) => return Err(e.into()),
         }
 
